@@ -237,7 +237,8 @@ import re as _re
 _MASS_FIELD = _re.compile(r"^M(S|F|V|C|G|A|h|H)[A-Za-z0-9]*$")
 DIMLESS_FUNCS = {"log", "exp", "dilog", "f_PS", "f_S", "f_sferm", "F1C", "F2C", "F3C", "F4C", "F1N", "F2N", "F3N", "F4N",
                  "G3", "G4", "Fa", "Fb", "sin", "cos", "tan", "atan", "asin", "acos", "log1p", "clausen_2",
-                 "f_CSl", "f_CSd", "f_CSu", "FPZ", "FSZ", "FCWl", "FCWu", "FCWd", "F1", "F1t", "F2", "F3"}
+                 "f_CSl", "f_CSd", "f_CSu", "FPZ", "FSZ", "FCWl", "FCWu", "FCWd", "F1", "F1t", "F2", "F3",
+                 "Ixy", "phi_uv"}
 SAME_DIM_FUNCS = {"abs", "real", "imag", "conj", "conjugate", "cwiseAbs", "array", "matrix", "transpose", "adjoint",
                   "col", "row", "diagonal", "asDiagonal", "sum", "maxCoeff", "minCoeff", "eval", "head", "tail",
                   "signed_abs_sqrt_keepdim", "fabs", "neg"}
